@@ -55,3 +55,14 @@ func (y *Yielder) Hits() map[string]int64 {
 	}
 	return out
 }
+
+var yieldCtr atomic.Uint64
+
+// yield gives other goroutines a chance to run while the harness polls hooked state.
+func yield() {
+	if yieldCtr.Add(1)%64 == 0 {
+		time.Sleep(20 * time.Microsecond)
+		return
+	}
+	runtime.Gosched()
+}
